@@ -641,7 +641,19 @@ func spentSigops(c *ctx, flavor string, cost int) *refchain.Block {
 		scripts = append(scripts, sc)
 		need -= n
 	}
-	ops, cs := c.take(1)
+	// the funding coin must not add sigops of its own (a P2WPKH spend costs 1)
+	var ops []refchain.OutPoint
+	var cs []refchain.Coin
+	for try := 0; try < 8; try++ {
+		ops, cs = c.take(1)
+		if ops == nil {
+			return nil
+		}
+		if k, _ := c.g.KindOf(cs[0].Script); k != chainsim.KP2WPKH {
+			break
+		}
+		ops = nil
+	}
 	if ops == nil {
 		return nil
 	}
